@@ -67,12 +67,53 @@ func (c *c11) raw(ch *kernel.Chooser) string {
 	cl := w.Store.Clients[client]
 	redirect := cl.Redirects[ch.Int(len(cl.Redirects))]
 	wantErr := ch.Bool(1, 4)
-	s, resp := startAuthz(w, c.b, flowOpts{client: client, scopes: []string{oidc.ScopeOpenID}, responseType: respType, responseMode: mode, state: state, nonce: nonce, redirect: redirect, pkce: map[bool]string{true: "S256", false: "none"}[cl.Public()]})
-	desc := fmt.Sprintf("raw %s type=%q mode=%q redirect=%q state=%q err=%v", client, respType, mode, redirect, state, wantErr)
+	noState := ch.Bool(1, 6)
+	if noState {
+		state = "" // the client sends no state: none may come back
+	}
+	// the error may also come from the storage: one call of the authorization request or of the callback fails with
+	// the storage's reused *oidc.Error value
+	storageErrAt, storageK := "", 0
+	if wantErr && ch.Bool(1, 2) {
+		storageErrAt, storageK = ch.Pick("authorize", "callback"), ch.Range(2, 6)
+	}
+	inject := func() {
+		fired := false
+		w.Store.Inject = func(n int, method string, rid int) string {
+			if n >= storageK && !fired && method != "GetClientByClientID" {
+				fired = true
+				c.o.Fault(world.FaultSentinel)
+				return world.FaultSentinel
+			}
+			return ""
+		}
+	}
+	if storageErrAt == "authorize" {
+		inject()
+	}
+	s, resp := startAuthz(w, c.b, flowOpts{client: client, scopes: []string{oidc.ScopeOpenID}, responseType: respType, responseMode: mode, state: state, noState: noState, nonce: nonce, redirect: redirect, pkce: map[bool]string{true: "S256", false: "none"}[cl.Public()]})
+	w.Store.Inject = nil
+	desc := fmt.Sprintf("raw %s type=%q mode=%q redirect=%q state=%q err=%v storage-error=%q", client, respType, mode, redirect, state, wantErr, storageErrAt)
+	if storageErrAt == "authorize" {
+		if s.authReq != "" {
+			return desc + " -> fault not reached"
+		}
+		return c.storageError(desc, resp, state, redirect)
+	}
 	if s.authReq == "" {
 		return desc + fmt.Sprintf(" -> authorize refused %d", resp.Status)
 	}
 	var r *world.Resp
+	if storageErrAt == "callback" {
+		lr := loginStep(w, c.b, s)
+		if lr.Status != 302 {
+			return desc + " -> login failed"
+		}
+		inject()
+		r = c.b.Get(lr.Location)
+		w.Store.Inject = nil
+		return c.storageError(desc, r, state, redirect)
+	}
 	if wantErr {
 		// the callback before the user is authenticated yields an error response (interaction_required) to the client
 		r = c.b.Get(w.Issuer + "/authorize/callback?id=" + s.authReq)
@@ -172,6 +213,34 @@ func (c *c11) raw(ch *kernel.Chooser) string {
 		}
 	}
 	return desc + " -> arrived"
+}
+
+// storageError judges the answer to a request that failed inside the storage: if it is an error response to the
+// client, it carries an error and exactly the state the client sent - none, if it sent none.
+func (c *c11) storageError(desc string, r *world.Resp, state, redirect string) string {
+	if panicProbe(c.o, r) || r.Err != nil {
+		return desc
+	}
+	ar, err := world.DecodeAuthzResponse(r)
+	if err != nil || ar == nil {
+		c.o.Probe("storage-error-not-redirected")
+		return desc + fmt.Sprintf(" -> %d, no response to the client", r.Status)
+	}
+	p := ar.Params
+	if p.Get("error") == "" {
+		return desc + " -> no error (fault not reached)"
+	}
+	c.o.Probe("storage-error-responses")
+	if state == "" {
+		c.o.Probe("storage-error-responses-without-state")
+	}
+	if got := p.Get("state"); got != state || len(p["state"]) > 1 {
+		c.viol("state", ar.Mode+"/storage-error", "%s: the client sent state %q, the error response carries %q", desc, state, p["state"])
+	}
+	if p.Get("code") != "" || p.Get("id_token") != "" || p.Get("access_token") != "" {
+		c.viol("error", ar.Mode+"/storage-error-leak", "%s: error response carries a code or token", desc)
+	}
+	return desc + " -> error arrived"
 }
 
 func schemeKind(uri string) string {
